@@ -31,11 +31,15 @@ class Violation(Exception):
         super().__init__(f"{kind}: {detail}")
         self.kind = kind
         self.detail = str(detail)
+        self.case = sig.pop("case", None)  # optional smaller replacement case
         self.sig = dict(sig)
         self.sig["kind"] = kind
 
     def to_json(self):
-        return {"kind": self.kind, "detail": self.detail[:2000], "sig": self.sig}
+        d = {"kind": self.kind, "detail": self.detail[:2000], "sig": self.sig}
+        if self.case is not None:
+            d["case"] = self.case
+        return d
 
 
 class HarnessError(Exception):
@@ -50,6 +54,8 @@ class Ctx:
         self.excluded = collections.Counter()
         self.exclude_known = exclude_known
         self.notes = {}
+        self.evals = None  # bulk cases: number of elementary evaluations / non-trivial ones
+        self.nt_evals = None
 
     def label(self, *labels):
         for l in labels:
@@ -195,6 +201,16 @@ def _empty_result(sub_name, shard):
 
 
 def _record(res, sub, case, ctx, seen_nt, keep_digests=True):
+    if ctx.evals is not None:
+        res["evaluations"] += ctx.evals
+        res["nontrivial_count_extra"] += ctx.nt_evals or 0
+        for l in ctx.labels:
+            res["labels"][l] = res["labels"].get(l, 0) + 1
+        for k, v in ctx.notes.get("label_counts", {}).items():
+            res["labels"][k] = res["labels"].get(k, 0) + v
+        if len(res["samples"]) < MAX_SAMPLES:
+            res["samples"].append({"case": sub.describe(case) if sub.describe else case, "labels": sorted(ctx.labels)})
+        return
     res["evaluations"] += 1
     for l in ctx.labels:
         res["labels"][l] = res["labels"].get(l, 0) + 1
@@ -237,7 +253,8 @@ def _run_enum(res, sub, tier, seed, shard, nshards):
         try:
             sub.check(case, ctx)
         except Violation as v:
-            res["failure"] = {"case": case, "violation": v.to_json()}
+            vj = v.to_json()
+            res["failure"] = {"case": vj.pop("case", None) or case, "violation": vj}
             break
         _record(res, sub, case, ctx, seen_nt, keep_digests=False)
     res["exhaustive"] = bool(sub.exhaustive) and res["failure"] is None
@@ -276,7 +293,8 @@ def _run_hyp(res, pid, sub, tier, seed, shard, nshards):
             sub.check(case, ctx)
         except Violation as v:
             st["fails"] += 1
-            st["best"] = (case, v.to_json())
+            vj = v.to_json()
+            st["best"] = (vj.pop("case", None) or case, vj)
             if st["fails"] > budget:
                 st["stop"] = True
             raise
@@ -303,7 +321,9 @@ def replay_case(prop, sub_name, case, exclude_known=False):
     try:
         sub.check(jnorm(case), ctx)
     except Violation as v:
-        return v.to_json(), ctx
+        vj = v.to_json()
+        vj.pop("case", None)
+        return vj, ctx
     return None, ctx
 
 
